@@ -19,7 +19,10 @@ RULE = (
     "2-4 generated/pool programs of up to ~60 tokens. The same controller drives CGenerator subclasses that yield at every "
     "visit() and two different NodeVisitor subclasses that yield at every visit(). Plus 4-8 free-running threads "
     "(switch interval 1e-6 s) each parsing and regenerating its own programs repeatedly. Oracle: every result (AST dump with "
-    "coordinates / exception type+message / generated text / visit log) equals the result of the same call run alone. "
+    "coordinates / exception type+message / generated text / visit log) equals the result of the same call run alone; for parses "
+    "'alone' is computed by a private copy of the pycparser package created for that one call (module- and class-level state "
+    "of the classes under test cannot reach it), and for the pool programs additionally by a forked process without any parsing "
+    "history. Programs carry their own file names (f0.c, f1.c, ...) and directives with and without a file name. "
     "Non-trivial: the schedule switches between instances while one of them is inside a nested scope and the programs share a "
     "name with different meaning; distinct by construction (exhaustive) / by hash of (programs, schedule)."
 )
@@ -38,6 +41,11 @@ POOL = [
     "void k(void) { int U; U = 1; if (U) { typedef int U; U z; } }",
     "typedef struct P { int q; } P; P p = { 1 }; int r = (P){ 2 }.q;",
     "int P; int s = P * 2;",
+    # directives without a file name: the file stays the one given to parse()
+    "int l1;\n#line 100\nint l2;\n# 7\nint l3 = l1 + @;",
+    "typedef int T;\n#line 100\nT l4;\n# 7\nT l5;",
+    '# 3 "inc.h"\nint l6;\n#line 100\nint l7;\n# 7\nint l8;',
+    "#pragma once\n#line 100\nvoid l9(void) { T }",
 ]
 SHORT_PAIRS = [
     ("typedef int T ;", "int a = T ;"),
@@ -45,11 +53,12 @@ SHORT_PAIRS = [
     ("int f ( T ) ;", "typedef int T ;"),
     ('# 9 "x.h"\nint @ ;', "int ~ ;"),
     ("void f ( ) { T ; }", "typedef int T ;"),
+    ("#line 9\nint a ;", "#line 9\nint @ ;"),
     # thorough tier only (tens of thousands of interleavings each)
     ("typedef int T ; T b ;", "int T ; int c = T ;"),
     ("void f ( ) { int T ;", "typedef int T ; T x ;"),
 ]
-NQUICK_PAIRS = 5
+NQUICK_PAIRS = 6
 
 
 class _Abort(BaseException):
@@ -172,12 +181,47 @@ def run_parsers(srcs, schedule):
     return res, ctl
 
 
-def solo_parsers(srcs):
-    return [parse_result(c_parser.CParser(), s, "f%d.c" % i) for i, s in enumerate(srcs)]
+def solo_parsers(srcs, st=None):
+    """The same calls run alone: each by a private copy of the package made
+    for that one call (vlib/pristine.py) - a reference computed with the
+    classes under test would share their module- and class-level state."""
+    from ..pristine import private_call
+
+    if st is not None:
+        st.classes["references_from_private_copies"] += len(srcs)
+    return [private_call("parse_dump", s, "f%d.c" % i) for i, s in enumerate(srcs)]
+
+
+def process_reference_shard(arg):
+    """For the pool programs the reference of solo_parsers must equal the answer
+    of a process without any history (fork per answer, vlib/pristine.py)."""
+    from ..pristine import PristineUnavailable, Pristine, private_call
+
+    lo, hi = arg
+    st = Stats()
+    progs = (POOL + [x for pair in SHORT_PAIRS for x in pair])[lo:hi]
+    p = Pristine()
+    try:
+        for i, s in enumerate(progs):
+            fname = "f%d.c" % (i % 4)
+            try:
+                ref = p.call("parse_dump", s, fname)
+            except PristineUnavailable:
+                st.classes["process_references_unavailable"] += 1
+                continue
+            st.evaluations += 1
+            st.classes["process_references"] += 1
+            here = parse_result(c_parser.CParser(), s, fname)
+            priv = private_call("parse_dump", s, fname)
+            if here != ref or priv != ref:
+                st.failures.append(dict(subcheck="parsers", case=("parsers", [s], [0]), text=s, detail="result in the checking process %s / by a private copy %s differs from the result of a process without history" % (here[:2] if here[0] != "ok" else "ok", priv[:2] if priv[0] != "ok" else "ok"), sig="history-differs"))
+    finally:
+        p.close()
+    return st
 
 
 def check_parsers(srcs, schedule, st, subcheck="parsers"):
-    solo = solo_parsers(srcs)
+    solo = solo_parsers(srcs, st)
     res, ctl = run_parsers(srcs, schedule)
     if ("stalled",) in res:
         # a stall may be machine load (threads not scheduled for seconds): only a
@@ -194,7 +238,12 @@ def check_parsers(srcs, schedule, st, subcheck="parsers"):
     if res != solo:
         for i, (a, b) in enumerate(zip(res, solo)):
             if a != b:
-                fail(subcheck, case, "\n-----\n".join(srcs), "parser %d under schedule %s: %s, alone: %s" % (i, ctl.trace[:40], (a[:2] if a[0] != "ok" else "ok"), (b[:2] if b[0] != "ok" else "ok")), "interleaving-differs")
+                where = ""
+                if a[0] == "ok" and b[0] == "ok":
+                    from ..astdump import first_difference
+
+                    where = "; ASTs (with coordinates) first differ at %s" % (first_difference(a[1], b[1]),)
+                fail(subcheck, case, "\n-----\n".join(srcs), "parser %d under schedule %s: %s, alone: %s%s" % (i, ctl.trace[:40], (a[:2] if a[0] != "ok" else "ok"), (b[:2] if b[0] != "ok" else "ok"), where), "interleaving-differs")
     return ctl
 
 
@@ -445,6 +494,12 @@ def free_threads_shard(arg):
 
 def run(ctx):
     nparts = 4
+    nprog = len(POOL) + 2 * len(SHORT_PAIRS)
+    if ctx.quick:
+        lo = (ctx.seed * 6) % nprog
+        ctx.map(process_reference_shard, [(lo, lo + 3), (max(0, lo - 3), lo)])
+    else:
+        ctx.map(process_reference_shard, [(i, i + 3) for i in range(0, nprog, 3)])
     npairs = ctx.pick(NQUICK_PAIRS, len(SHORT_PAIRS))
     ctx.map(exhaustive_shard, [(pi, p, nparts) for pi in range(npairs) for p in range(nparts)])
     ctx.map(random_shard, [(s, ctx.pick(150, 2500)) for s in ctx.shard_seeds(16)])
